@@ -95,6 +95,8 @@ class Model:
             return [(variant("Ok", ("tag", a)), ts), (E, ts)]
         if name == "get_register_len":
             return [(("depth", d), ts)]
+        if name in ("add_true", "add_false") and self.record_events:
+            return [(variant("Ok", TOP), (d, v, f, ev + ((name,),), np)), (E, ts)]
         if name in ("defer_op", "apply", "resolve"):
             kind = {"defer_op": "defer", "apply": "apply", "resolve": "resolve"}[name]
             e = (kind,) + tuple(args[1:]) + (("at", d, np),) if self.record_events else (kind,)
@@ -107,9 +109,10 @@ class Model:
         return [(s, ts) for s in ret_shapes(dty)]
 
     # ------------------------------------------------------------------ summaries
-    def summary(self, path, args, np):
-        """List of (ret_value, delta_ts) for calling workspace function `path` with abstract `args`."""
-        key = (path, tuple(args), np)
+    def summary(self, path, args, np, facts=()):
+        """List of (ret_value, delta_ts) for calling workspace function `path` with abstract `args`.
+        facts: tuple of (env key, value) tag knowledge about symbols, valid on entry."""
+        key = (path, tuple(args), np, tuple(facts))
         if key in self.memo:
             return self.memo[key]
         if key in self.in_progress:
@@ -126,11 +129,11 @@ class Model:
         f = self.F.fns[path]
         self.in_progress.add(key)
         try:
-            init_env = {}
+            init_env = dict(facts)
             for i, a in enumerate(args):
                 if a is not TOP:
                     init_env["_%d" % (i + 1)] = a
-            it = ai.Interp(f, hooks={"on_call": self.on_call, "track": lambda k: True, "on_switch": self.on_switch if not self.refine_tags else None},
+            it = ai.Interp(f, hooks={"on_call": self.on_call, "track": lambda k: True, "refine_tags": self.refine_tags},
                            init_env=init_env, init_ts=(0, 0, 0, (), np), cap=self.cap)
             it.run()
             self.states += it.visited
@@ -157,7 +160,7 @@ class Model:
                 return ("v", rv[1], tuple(self._abstract_ret(x, depth + 1) for x in rv[2]))
             if rv[0] == "t":
                 return ("t", tuple(self._abstract_ret(x, depth + 1) for x in rv[1]))
-            if rv[0] in ("c", "s", "tag", "depth", "fn", "get"):
+            if rv[0] in ("c", "s", "tag", "depth", "fn", "get", "uns"):
                 return rv
             if rv[0] == "closure":
                 return ("closure", rv[1], ())
@@ -200,12 +203,28 @@ class Model:
         if d.startswith(GD):
             outs = self.contract(nm, args, ts, t, interp, env)
             return [(rv, nts, None) for rv, nts in outs]
+        if nm == "unsupported_types" and "RuntimeError" in d:
+            return [(("uns",), ts, None)]
+        if nm == "get_type" and "RuntimeError" in d:
+            a0 = args[0] if args else TOP
+            if isinstance(a0, tuple) and a0 and a0[0] == "r":
+                a0 = interp.read_key(a0[1], env)
+            if a0 == ("uns",):
+                return [(variant("UnsupportedOpTypes"), ts, None)]
+            return [(TOP, ts, None)]
+        if d in ("core::cmp::PartialEq::eq", "core::cmp::PartialEq::ne") and len(args) == 2:
+            vals = []
+            for a in args:
+                if isinstance(a, tuple) and a and a[0] == "r":
+                    a = interp.read_key(a[1], env)
+                vals.append(a)
+            if all(is_variant(x) and not x[2] for x in vals):
+                same = vals[0][1] == vals[1][1]
+                return [(const(1 if same == (nm == "eq") else 0), ts, None)]
         p = self._callee_path(t)
         if p is not None and self.F.fns[p]["crate"] in self.scope:
-            try:
-                outs = self.summary(p, [self._abstract_ret(a) for a in args], ts[4])
-            except ai.StateCapExceeded as e:
-                raise
+            facts = tuple(sorted((k, v) for k, v in env.items() if k[0] == "@")) if self.refine_tags else ()
+            outs = self.summary(p, [self._abstract_ret(a) for a in args], ts[4], facts)
             return [(rv, compose(ts, dl), None) for rv, dl in outs]
         # closure-taking std combinators
         a0 = args[0] if args else TOP
